@@ -140,6 +140,11 @@ pub struct Model<'p> {
     pub max_loops: usize,
     pub max_array_cells: usize,
     pub rejected_writes: u64,
+    /// OUT OF MEMORY was raised by a function call while function frames were
+    /// already on the stack (runaway recursion through DEF). The implementation
+    /// also caps expression nesting, so where exactly such a recursion is cut
+    /// off (and hence the line blamed) is not specified.
+    pub runaway_function_recursion: bool,
     pub features: std::collections::BTreeSet<&'static str>,
 }
 
@@ -198,6 +203,7 @@ impl<'p> Model<'p> {
             max_loops: 0,
             max_array_cells: 0,
             rejected_writes: 0,
+            runaway_function_recursion: false,
             features: Default::default(),
         }
     }
@@ -397,6 +403,9 @@ impl<'p> Model<'p> {
             return Err(ErrKind::SyntaxExpectedToken);
         }
         if self.frames.len() == STACK_CAP {
+            if self.frames.iter().any(|f| f.ret.is_none()) {
+                self.runaway_function_recursion = true;
+            }
             return Err(ErrKind::StackOverflow);
         }
         self.frames.push(Frame { ret: None, vars: bound });
